@@ -595,3 +595,316 @@ class SimQueue(queue.Queue):
         if not self.queue:
             raise queue.Empty
         return self.queue.popleft()
+
+
+# ---------------------------------------------------------------------------------------------
+# threading primitives created by the code under test (Lock / RLock / Event / Condition /
+# Semaphore).  Under the baton exactly one task runs, so each primitive is plain state plus
+# `sim.block`; who is woken, and when a timed wait expires, is the scheduler's decision.
+# Outside a simulated task (harness code, after the run) they never block.
+# ---------------------------------------------------------------------------------------------
+def _to(timeout):
+    return None if timeout is None or timeout < 0 else timeout
+
+
+class SimLock:
+    def __init__(self, sim):
+        self.sim = sim
+        self._locked = False
+
+    def acquire(self, blocking=True, timeout=-1):
+        sim = self.sim
+        if sim._me() is None:
+            if self._locked:
+                return False
+            self._locked = True
+            return True
+        sim.yield_point("lock?", None)
+        if self._locked:
+            if not blocking:
+                return False
+            sim.stats["blocked_lock"] = sim.stats.get("blocked_lock", 0) + 1
+            if not sim.block("lock", lambda: not self._locked, _to(timeout)):
+                return False
+        self._locked = True
+        return True
+
+    def release(self):
+        if not self._locked:
+            raise RuntimeError("release unlocked lock")
+        self._locked = False
+        self.sim.yield_point("unlock", None)
+
+    def locked(self):
+        return self._locked
+
+    __enter__ = acquire
+
+    def __exit__(self, *a):
+        self.release()
+
+
+class SimRLock:
+    def __init__(self, sim):
+        self.sim = sim
+        self._owner = None
+        self._count = 0
+
+    def _who(self):
+        me = self.sim._me()
+        return me.name if me is not None else ("thread", threading.get_ident())
+
+    def acquire(self, blocking=True, timeout=-1):
+        sim = self.sim
+        who = self._who()
+        if self._owner == who:
+            self._count += 1
+            return True
+        if sim._me() is None:
+            if self._owner is not None:
+                return False
+        else:
+            sim.yield_point("lock?", None)
+            if self._owner is not None:
+                if not blocking:
+                    return False
+                sim.stats["blocked_lock"] = sim.stats.get("blocked_lock", 0) + 1
+                if not sim.block("rlock", lambda: self._owner is None, _to(timeout)):
+                    return False
+        self._owner = who
+        self._count = 1
+        return True
+
+    def release(self):
+        if self._owner != self._who():
+            raise RuntimeError("cannot release un-acquired lock")
+        self._count -= 1
+        if self._count == 0:
+            self._owner = None
+            self.sim.yield_point("unlock", None)
+
+    def _is_owned(self):
+        return self._owner == self._who()
+
+    def _release_save(self):
+        st = (self._owner, self._count)
+        self._owner, self._count = None, 0
+        return st
+
+    def _acquire_restore(self, st):
+        sim = self.sim
+        if self._owner is not None and sim._me() is not None:
+            sim.block("rlock", lambda: self._owner is None, None)
+        self._owner, self._count = st
+
+    __enter__ = acquire
+
+    def __exit__(self, *a):
+        self.release()
+
+
+class SimEvent:
+    def __init__(self, sim):
+        self.sim = sim
+        self._flag = False
+
+    def is_set(self):
+        return self._flag
+
+    isSet = is_set
+
+    def set(self):
+        self._flag = True
+        self.sim.yield_point("event.set", None)
+
+    def clear(self):
+        self._flag = False
+
+    def wait(self, timeout=None):
+        sim = self.sim
+        if sim._me() is None:
+            return self._flag
+        sim.yield_point("event.wait?", None)
+        if not self._flag:
+            sim.stats["blocked_event"] = sim.stats.get("blocked_event", 0) + 1
+            sim.block("event", lambda: self._flag, _to(timeout))
+        return self._flag
+
+
+class SimCondition:
+    def __init__(self, sim, lock=None):
+        self.sim = sim
+        self._lock = lock if lock is not None else SimRLock(sim)
+        self.acquire = self._lock.acquire
+        self.release = self._lock.release
+        self._waiters = []
+
+    def __enter__(self):
+        return self._lock.__enter__()
+
+    def __exit__(self, *a):
+        return self._lock.__exit__(*a)
+
+    def _owned(self):
+        if hasattr(self._lock, "_is_owned"):
+            return self._lock._is_owned()
+        return self._lock.locked()
+
+    def wait(self, timeout=None):
+        sim = self.sim
+        if not self._owned():
+            raise RuntimeError("cannot wait on un-acquired lock")
+        if sim._me() is None:
+            return False
+        ticket = [False]
+        self._waiters.append(ticket)
+        if hasattr(self._lock, "_release_save"):
+            st = self._lock._release_save()
+        else:
+            st = None
+            self._lock._locked = False
+        sim.stats["blocked_cond"] = sim.stats.get("blocked_cond", 0) + 1
+        try:
+            ok = sim.block("cond", lambda: ticket[0], _to(timeout))
+        finally:
+            if ticket in self._waiters:
+                self._waiters.remove(ticket)
+            if st is not None:
+                self._lock._acquire_restore(st)
+            else:
+                if self._lock._locked:
+                    sim.block("lock", lambda: not self._lock._locked, None)
+                self._lock._locked = True
+        return bool(ok)
+
+    def wait_for(self, predicate, timeout=None):
+        sim = self.sim
+        end = None if _to(timeout) is None else sim.now + int(timeout * 1_000_000)
+        result = predicate()
+        while not result:
+            left = None
+            if end is not None:
+                left = (end - sim.now) / 1_000_000
+                if left <= 0:
+                    break
+            self.wait(left)
+            result = predicate()
+        return result
+
+    def notify(self, n=1):
+        if not self._owned():
+            raise RuntimeError("cannot notify on un-acquired lock")
+        for ticket in self._waiters[:n]:
+            ticket[0] = True
+        del self._waiters[:n]
+
+    def notify_all(self):
+        self.notify(len(self._waiters))
+
+    notifyAll = notify_all
+
+
+class SimSemaphore:
+    def __init__(self, sim, value=1, bound=None):
+        if value < 0:
+            raise ValueError("semaphore initial value must be >= 0")
+        self.sim = sim
+        self._value = value
+        self._bound = bound
+
+    def acquire(self, blocking=True, timeout=None):
+        sim = self.sim
+        if sim._me() is None:
+            if self._value == 0:
+                return False
+            self._value -= 1
+            return True
+        sim.yield_point("sem?", None)
+        if self._value == 0:
+            if not blocking:
+                return False
+            sim.stats["blocked_sem"] = sim.stats.get("blocked_sem", 0) + 1
+            if not sim.block("sem", lambda: self._value > 0, _to(timeout)):
+                return False
+        self._value -= 1
+        return True
+
+    def release(self, n=1):
+        if self._bound is not None and self._value + n > self._bound:
+            raise ValueError("Semaphore released too many times")
+        self._value += n
+        self.sim.yield_point("sem.release", None)
+
+    __enter__ = acquire
+
+    def __exit__(self, *a):
+        self.release()
+
+
+class sim_threading:
+    """While active, `threading.Lock/RLock/Event/Condition/Semaphore/BoundedSemaphore` return the simulated
+    primitive when the *calling module* belongs to the code under test (prefixes), and the real one for everybody
+    else (queue, logging, torch, threading itself).  Restored on exit, also on SimAbort."""
+
+    NAMES = ("Lock", "RLock", "Event", "Condition", "Semaphore", "BoundedSemaphore")
+
+    def __init__(self, sim, prefixes=("sleap_nn",)):
+        self.sim = sim
+        self.prefixes = tuple(prefixes)
+        self.saved = {}
+        self.created = 0
+
+    def _mine(self):
+        f = sys._getframe(2)
+        mod = f.f_globals.get("__name__", "")
+        return any(mod == p or mod.startswith(p + ".") for p in self.prefixes)
+
+    _active = None
+
+    def __enter__(self):
+        if sim_threading._active is not None:  # an earlier run left through an exception path: undo it first
+            sim_threading._active.__exit__()
+        sim_threading._active = self
+        sim = self.sim
+        real = {n: getattr(threading, n) for n in self.NAMES}
+        self.saved = real
+        outer = self
+
+        def mk(name, build):
+            def factory(*a, **k):
+                if outer._mine():
+                    outer.created += 1
+                    sim.stats["sim_primitives"] = sim.stats.get("sim_primitives", 0) + 1
+                    return build(*a, **k)
+                return real[name](*a, **k)
+
+            factory.__name__ = name
+            return factory
+
+        threading.Lock = mk("Lock", lambda: SimLock(sim))
+        threading.RLock = mk("RLock", lambda: SimRLock(sim))
+        threading.Event = mk("Event", lambda: SimEvent(sim))
+        threading.Condition = mk("Condition", lambda lock=None: SimCondition(sim, lock))
+        threading.Semaphore = mk("Semaphore", lambda value=1: SimSemaphore(sim, value))
+        threading.BoundedSemaphore = mk("BoundedSemaphore", lambda value=1: SimSemaphore(sim, value, bound=value))
+        # `from threading import Event` inside the code under test bound the real class at import time
+        self.rebound = []
+        for mname, mod in sorted(sys.modules.items()):
+            if mod is None or not any(mname == p or mname.startswith(p + ".") for p in self.prefixes):
+                continue
+            for attr, val in list(vars(mod).items()):
+                for n in self.NAMES:
+                    if val is real[n]:
+                        self.rebound.append((mod, attr, val))
+                        setattr(mod, attr, getattr(threading, n))
+        return self
+
+    def __exit__(self, *a):
+        if sim_threading._active is self:
+            sim_threading._active = None
+        for n, v in self.saved.items():
+            setattr(threading, n, v)
+        for mod, attr, val in getattr(self, "rebound", ()):
+            setattr(mod, attr, val)
+        self.saved, self.rebound = {}, []
+        return False
